@@ -300,6 +300,16 @@ theorem setupSubSt_inv (v : Version) (env : Env) (s : PyState) (a i : Nat) (arg 
       rcases hbp : buildPlain v.rederive s.grids b.grid b.start b.stop q.freq q.wacc arg with ⟨G, ptr, r⟩
       exact inv_upd hI a _ _ (by simpa [map_win_set _ i b hb ptr] using hI a)
 
+theorem setTimegridSubSt_inv (env : Env) (s : PyState) (a i g : Nat) (hI : Inv env s) :
+    Inv env (setTimegridSubSt env s a i g) := by
+  simp only [setTimegridSubSt]
+  cases hb : (s.assets a).sub[i]? with
+  | none => exact hI
+  | some b =>
+    cases hq : (env.asset a).subs[i]? with
+    | none => exact hI
+    | some q => exact inv_upd hI a _ _ (by simpa [map_win_set _ i b hb (some g)] using hI a)
+
 /-- direct set-up of a wrapped asset: reads the wrapped asset's own data, on the grid named or on the grid that asset
     itself sits on -/
 theorem setupSubSt_eq (env : Env) (s : PyState) (a i : Nat) (arg : Option Nat) (hI : Inv env s) :
@@ -328,6 +338,7 @@ theorem setupSt_inv (v : Version) (env : Env) (s : PyState) (c : Call) (hI : Inv
   cases c with
   | setTimegrid a g => exact setTimegridSt_inv env s a g hI
   | setup a arg => exact setupAsset_inv v env s a arg hI
+  | setTimegridSub a i g => exact setTimegridSubSt_inv env s a i g hI
   | setupSub a i arg => exact setupSubSt_inv v env s a i arg hI
   | setupPortfolio arg => exact (setupPortfolioSt_eq v env s arg hI).2
   | setupSplit g tmp =>
